@@ -284,7 +284,7 @@ def gen_cases(ctx):
     rng = ctx.rng
     cases = []
     planned = set()
-    caps = range(2, 9) if quick else range(2, 13)
+    caps = range(2, 9) if quick else range(2, 17)
     for c in caps:
         cs, pl = exploration_cases(c, dump_block=True)
         cases += cs
@@ -327,7 +327,7 @@ def main(ctx):
     ctx.cov["trusted_base"] = TRUSTED
     ctx.assumptions += TRUSTED[2:]
     ctx.cov["rule"] = (
-        "explicit-state exploration per capacity (2..8 quick, 2..12 thorough): every (w,r,t) reachable from init "
+        "explicit-state exploration per capacity (2..8 quick, 2..16 thorough): every (w,r,t) reachable from init "
         "x every operation write/read/fetch/writer_fc+writer_move_n (all partial advances k<=n)/writer_fc+"
         "writer_move/reader_fc+reader_move (all k<=n)/clear x every size 0..c, each executed on the real code from "
         "init by a shortest history, followed by state, block dump and a full drain; + seeded random long "
